@@ -127,14 +127,15 @@ func getServer(cfg config) *srvT {
 // ---- one connection ----
 
 type peer struct {
-	cfg  config
-	conn *vh.Conn
-	sc   *vh.Conn
-	raw  *vh.Raw
-	stub *vh.ScriptSession
-	srv  *srvT
-	dead bool
-	last string // state observed after the previous step
+	cfg      config
+	conn     *vh.Conn
+	sc       *vh.Conn
+	raw      *vh.Raw
+	stub     *vh.ScriptSession
+	srv      *srvT
+	dead     bool
+	last     string // state observed after the previous step
+	upgraded bool   // STARTTLS was completed on this connection
 }
 
 // trailer is sent in the same write as a command that is going to end the connection (LOGOUT, or an
@@ -145,7 +146,13 @@ func (p *peer) closing(ev *event) bool {
 	if ev.Exp != nil {
 		return ev.Exp.Closed && ev.C != "IDLE" && !strings.HasPrefix(ev.C, "AUTHENTICATE")
 	}
-	return ev.V != "bad" && (ev.C == "LOGOUT" || ev.C == "XUNKNOWN" && p.last == "notauth")
+	return ev.V != "bad" && (ev.C == "LOGOUT" || ev.C == "STARTTLS-PIPED" || ev.C == "XUNKNOWN" && p.last == "notauth")
+}
+
+// canPipeStartTLS tells whether the server is going to accept STARTTLS now, from what was configured
+// and observed so far (the piped variant is only defined there).
+func (p *peer) canPipeStartTLS() bool {
+	return p.cfg.HasTLSConfig && !p.cfg.TLS && !p.upgraded && p.last == "notauth"
 }
 
 func dial(cfg config) (*peer, error) {
@@ -210,6 +217,8 @@ func cmdText(c, v string) string {
 		return c
 	}
 	switch c {
+	case "STARTTLS-PIPED":
+		return "STARTTLS"
 	case "LOGIN":
 		return "LOGIN u p"
 	case "AUTHENTICATE":
@@ -293,6 +302,22 @@ func (p *peer) run1(ev *event) (*obs, error) {
 			} else {
 				o.Tagged = "NOTOK"
 			}
+			if piped && ev.C == "STARTTLS-PIPED" && o.Tagged == "OK" {
+				// the transport now belongs to TLS: what the server does with the plaintext that was
+				// already behind the STARTTLS line shows in a real handshake.  It is expected to fail
+				// (the plaintext breaks it) and the connection to end.
+				tc := tls.Client(p.conn, vh.ClientTLSConfig())
+				p.conn.SetReadDeadline(time.Now().Add(5 * time.Second))
+				if err := tc.Handshake(); err != nil {
+					eof = true
+					break
+				}
+				p.raw = vh.NewRaw(tc)
+				p.raw.Timeout = 5 * time.Second
+				o.TLS = true
+				p.upgraded = true
+				continue
+			}
 			if piped {
 				continue // read on: the connection is expected to end without another tagged response
 			}
@@ -339,6 +364,7 @@ func (p *peer) run1(ev *event) (*obs, error) {
 		p.raw = vh.NewRaw(tc)
 		p.raw.Timeout = 5 * time.Second
 		o.TLS = true
+		p.upgraded = true
 	}
 	// probes: CAPABILITY then FETCH (not logged by the stub)
 	p.stub.SetQuiet(true)
@@ -593,7 +619,10 @@ func cmdRandom(path string, seed int64, traces, steps int) {
 			if (ev.C == "LOGOUT" || ev.C == "XUNKNOWN") && rng.Intn(4) != 0 {
 				ev.C = "NOOP"
 			}
-			if rng.Intn(6) == 0 && ev.C != "XUNKNOWN" {
+			if ev.C == "STARTTLS" && p.canPipeStartTLS() && rng.Intn(3) == 0 {
+				ev.C = "STARTTLS-PIPED"
+			}
+			if rng.Intn(6) == 0 && ev.C != "XUNKNOWN" && ev.C != "STARTTLS-PIPED" {
 				ev.V = "bad"
 			}
 			if rng.Intn(4) == 0 {
